@@ -7,6 +7,18 @@ checks = {
    text="Exhaustive BFS over command histories (APPEND incl. \\Deleted, STORE +/-/=, EXPUNGE, UID EXPUNGE, CLOSE+SELECT, COPY/MOVE to the same / another / an already-holding mailbox, from two sessions) of the real server against a Go reference model (flags shared per message, \\Deleted per mailbox, re-add at end); after EVERY transition every mailbox is read through a fresh EXAMINE session (order, flags, exact bytes) and compared with the model; NO/BAD must leave everything unchanged.",
    note="Bounds: 2 sessions, 3 mailboxes, 4 initial messages, depth 3 (quick) / 5 (thorough) per family. Each command is preceded by NOOP so that sequence numbers refer to the current mailbox (stale views are C01/C02/C05's subject). The statement-batching-limit grid is part of C08.",
    technique="explicit-state BFS over command histories of the implementation against a reference model", design="3/C03"),
+ "C17": dict(level="model_checking", engine="E1",
+   text="Exhaustive BFS, per limit configuration (max mailboxes / messages per mailbox / UID), over histories of APPEND, multi-message COPY and MOVE, CREATE with implicit parents, RENAME creating superiors, EXPUNGE and connector batches / mailbox creations that approach the limits from below, on the real server; after every transition: no maximum exceeded, a refused operation left every targeted mailbox exactly as before (all-or-nothing), and an operation that fits every limit with a margin of one was accepted.",
+   note="Sequential histories (2 sessions issue commands one at a time). Concurrent approaches to a limit (check-then-act across transactions) are not explored by this check; see DESIGN.md.",
+   technique="explicit-state BFS over event histories of the implementation per limit configuration", design="3/C17"),
+ "C18": dict(level="model_checking", engine="E1",
+   text="Exhaustive BFS over command sequences (one representative of every command incl. UID forms, APPEND and IDLE, five LOGIN variants; 39 events) of one session on a real two-user server: a command×state table decides which commands must be refused; refused commands must leave both users' mailboxes unchanged; an authenticated session never changes, selects or lists anything of the other user; wrong credentials never authenticate. The jail clause enumerates all 4-attempt login sequences with three consecutive failures and checks a lower bound on the reply time.",
+   note="Bounds: depth 4 (quick) / 6 (thorough); STARTTLS not exercised. The jail oracle is a lower bound measured from the SENDING of the third failure, so scheduling delay cannot cause an alarm.",
+   technique="explicit-state BFS over command sequences of the implementation against a state/permission table", design="3/C18"),
+ "C20": dict(level="model_checking", engine="E1",
+   text="Exhaustive BFS over histories of APPEND (same and different bytes, to INBOX / another mailbox / the recovery mailbox), explorer-chosen remote answers (create-message ok / fail / fail-size) bounded by a deviation count, COPY/MOVE out of the recovery mailbox, EXPUNGE there, forbidden namespace operations on it (mixed case), LIST and server RESTART; after every transition: OK => message in the target under the announced UID, non-size NO => exact bytes in the recovery mailbox once per distinct message, the recovery mailbox is listed iff non-empty, forbidden operations refused.",
+   note="Bounds: depth 4 / 5, at most 2 / 3 injected remote failures per history.",
+   technique="explicit-state BFS over event histories with a fault alphabet (deviation-bounded)", design="3/C20"),
  "C09": dict(level="fault_enumeration", engine="ENUM",
    text="Bounded-exhaustive enumeration on the real store: every size around every multiple of the cipher block size x compressibility x scenario (fresh, overwrite, neighbour untouched, delete, list, failing writer), and for reference files EVERY truncation length and EVERY single-byte alteration, block-level operations and foreign passphrases; oracle: Get returns exactly the stored bytes or an error.",
    note="Sequential part only so far (the interleaving part is listed in DESIGN.md as pending). crypto/rand is pinned while base files are written so that files are byte-identical in every run.",
